@@ -176,10 +176,13 @@ Prog(c) ==
     [] c.op = "initfail" -> <<Rd(CODE), Nop>> \o PositionProg                      \* ... whose top level fails
 ProgTab == [c \in AllCombos |-> Prog(c)]
 
-\* the module thread: fill every object, freeze the globals in order
+\* the module thread: fill every object -- mutating and iterating the still unfrozen list L on
+\* the way, which takes the other branch of every guard -- then freeze the globals in order
 ModuleCombo == [op |-> "module", k |-> "prog"]
-ModuleProg == [i \in 1..Len(Globals) |-> Wr(data(Globals[i]), "built")]
+ModuleProg == MutProg("L")
+              \o [i \in 1..Len(Globals) |-> Wr(data(Globals[i]), "built")]
               \o <<Wr(data("C"), "built"), Wr(data("X"), "built")>>
+              \o IterProg("L")
               \o Cat([i \in 1..Len(Globals) |-> FreezeProg(Globals[i])])
 None == [op |-> "none", k |-> "none"]
 
@@ -217,9 +220,9 @@ A(t, l, k) == [t |-> t, l |-> l, k |-> k, vc |-> clk[t]]
 Advance(t, n) == pc' = [pc EXCEPT ![t] = @ + n]
 
 \* a reader takes its next operation; its first one starts the thread (fork from the module thread)
+CanStart(t) == /\ t \in Readers /\ cur[t] = None /\ Len(hist[t]) < MaxOps
+               /\ (Guards.publish => published)
 StartOp(t, c) ==
-  /\ t \in Readers /\ cur[t] = None /\ Len(hist[t]) < MaxOps
-  /\ (Guards.publish => published)
   /\ cur' = [cur EXCEPT ![t] = c] /\ pc' = [pc EXCEPT ![t] = 1]
   /\ IF t \in started THEN UNCHANGED <<started, clk>>
      ELSE /\ started' = started \cup {t}
@@ -267,7 +270,7 @@ EndOp(t) ==
      ELSE /\ hist' = [hist EXCEPT ![t] = Append(@, cur[t])] /\ UNCHANGED <<published, acc>>
   /\ UNCHANGED <<pc, started, mem, clk, once, oncevc>>
 
-TNext == \E t \in Tids : Step(t) \/ EndOp(t) \/ \E c \in OpSet : StartOp(t, c)
+TNext == \E t \in Tids : Step(t) \/ EndOp(t) \/ (CanStart(t) /\ \E c \in OpSet : StartOp(t, c))
 
 AllDone == published /\ \A t \in Readers : cur[t] = None /\ Len(hist[t]) = MaxOps
 
@@ -276,7 +279,8 @@ AllDone == published /\ \A t \in Readers : cur[t] = None /\ Len(hist[t]) = MaxOp
 (***************************************************************************)
 HB(a, b) == a.vc[a.t] <= b.vc[a.t]
 Conflict(a, b) == a.t # b.t /\ a.l = b.l /\ (a.k = "w" \/ b.k = "w")
-NoRace == \A a \in acc : \A b \in acc : Conflict(a, b) => HB(a, b) \/ HB(b, a)
+\* (a conflict needs a write: quantify over the writes first -- equivalent, and cheap when there are few)
+NoRace == \A a \in {x \in acc : x.k = "w"} : \A b \in acc : Conflict(a, b) => HB(a, b) \/ HB(b, a)
 
 \* what every reader observes is what it observes alone: after publication the published
 \* objects never change (flags stay set, counters stay 0, contents stay as built)
